@@ -190,11 +190,19 @@ def proof_gate(ctx):
     n_pa = len(re.findall(r"^\s*Print\s+Assumptions\s+(\w+)", src, re.M))
     closed = out.count("Closed under the global context")
     axioms = set()
-    for blk in re.findall(r"Axioms:\n((?:.+\n?)+?)(?:\n|\Z)", out):
-        for line in blk.split("\n"):
-            m = re.match(r"^(\S+)\s*:", line)
+    in_ax = False
+    for line in out.split("\n"):
+        if line.strip() == "Axioms:":
+            in_ax = True
+            continue
+        if in_ax:
+            m = re.match(r"^([A-Za-z_][\w.']*)\s*(:.*)?$", line)
             if m:
                 axioms.add(m.group(1))
+            elif line.startswith(" ") or line.startswith("\t"):
+                continue       # continuation of a type
+            else:
+                in_ax = False
     res["axioms"] = sorted(axioms)
     allow = set(props.AXIOMS.get(ctx.prop, []))
     for a in axioms:
@@ -318,7 +326,7 @@ def evaluate(ctx, name, lines, relevant, dbg=False, x=True, nontrivial=None, cap
         if bad:
             ctx.failures.append(dict(batch=name, case=line, impl=impl[i], model=model[i] if x else None,
                                      clauses=sorted(bad), dbg=dbg))
-        if x and impl[i] != model[i]:
+        if x and model[i] != "ORACLE" and impl[i] != model[i]:
             ctx.mismatches.append(dict(batch=name, case=line, impl=impl[i], model=model[i], dbg=dbg))
         nt = nontrivial(comp, kv, impl[i]) if nontrivial else default_nontrivial(comp, kv, impl[i])
         if nt:
